@@ -128,6 +128,9 @@ func c14KeyID(content int) int {
 
 func drawC14(t *rapid.T) *Case {
 	layout := []string{"plain", "k8s"}[rapid.IntRange(0, 1).Draw(t, "layout")]
+	// how the operator spelt the two paths: clean, or with a "." segment / a doubled
+	// separator (same files; fsnotify reports events under the cleaned name)
+	spelling := []string{"clean", "clean", "dot", "slashes"}[rapid.IntRange(0, 3).Draw(t, "spelling")]
 	n := rapid.IntRange(1, 12).Draw(t, "nops")
 	var ops []c14Op
 	drawContent := func() int {
@@ -180,10 +183,10 @@ func drawC14(t *rapid.T) *Case {
 	for _, o := range ops {
 		parts = append(parts, o.String())
 	}
-	c.Summary = fmt.Sprintf("layout=%s concurrent_handshakes=%v history: %s", layout, concurrent, strings.Join(parts, " "))
+	c.Summary = fmt.Sprintf("layout=%s paths=%s concurrent_handshakes=%v history: %s", layout, spelling, concurrent, strings.Join(parts, " "))
 	c.DirectKey = c.Summary
 	c.Direct = func(c *Case) []Violation {
-		vs, st := runC14(layout, ops, concurrent)
+		vs, st := runC14(layout, spelling, ops, concurrent)
 		c.DirectStats = st
 		return vs
 	}
@@ -245,7 +248,7 @@ func handshakeLeaf(cw *certwatcher.CertWatcher) ([]byte, error) {
 	return cl.ConnectionState().PeerCertificates[0].Raw, nil
 }
 
-func runC14(layout string, ops []c14Op, concurrent bool) (vs []Violation, stats map[string]int) {
+func runC14(layout, spelling string, ops []c14Op, concurrent bool) (vs []Violation, stats map[string]int) {
 	c14Init()
 	stats = map[string]int{}
 	bad := func(class, format string, args ...any) {
@@ -281,7 +284,14 @@ func runC14(layout string, ops []c14Op, concurrent bool) (vs []Violation, stats 
 		os.WriteFile(key, c14Pairs[0].Key, 0o644)
 	}
 
-	cw, err := certwatcher.New(crt, key)
+	crtArg, keyArg := crt, key
+	switch spelling {
+	case "dot":
+		crtArg, keyArg = dir+"/./tls.crt", dir+"/./tls.key"
+	case "slashes":
+		crtArg, keyArg = dir+"//tls.crt", dir+"//tls.key"
+	}
+	cw, err := certwatcher.New(crtArg, keyArg)
 	if err != nil {
 		bad("harness", "certwatcher.New: %v", err)
 		return
@@ -355,6 +365,35 @@ func runC14(layout string, ops []c14Op, concurrent bool) (vs []Violation, stats 
 		c14LogHook = nil
 		c14LogMu.Unlock()
 	}()
+	// preferred: the event hooks the rewriter puts around the handling of one event in
+	// Watch ("start" before the handler runs, "done" after it) - no dependence on log lines
+	hooked := certwatcher.VerifHooksInserted
+	if hooked {
+		certwatcher.VerifEventHook = func(phase, evName string) {
+			c14LogMu.Lock()
+			ws := wantSuffix
+			c14LogMu.Unlock()
+			if ws == "" || !strings.HasSuffix(evName, ws) {
+				return
+			}
+			if phase == "start" {
+				c, _ := cw.GetCertificate(nil)
+				select {
+				case snap <- leafOf(c):
+				default:
+				}
+			} else {
+				select {
+				case reloaded <- struct{}{}:
+				default:
+				}
+			}
+		}
+		c14LogMu.Lock()
+		c14LogHook = nil
+		c14LogMu.Unlock()
+		defer func() { certwatcher.VerifEventHook = nil }()
+	}
 	seq := 0
 	prevSentinel := ""
 	barrier := func() []byte {
